@@ -252,7 +252,7 @@ def expand_validate_fields(e):
     return expanded
 
 
-def extract_item(e):
+def extract_item(e, vac=False):
     if e.get("kind") == "macro_validate_fields":
         item = rewrite(expand_validate_fields(e))
         item = msg_rule(item)
@@ -295,6 +295,8 @@ def extract_item(e):
             item = item.replace(ins[k], (ins["text"] + "\n" + ins[k]) if k == "before" else (ins[k] + "\n" + ins["text"] + "\n"))
         if e.get("msg_rule"):
             item = msg_rule(item, {"shaped": True, "at": "at"}.get(e.get("msg_rule"), False))
+        if vac:
+            item = "assert(false); // @VACUITY " + e["key"] + "\n" + item
         return item
     if e.get("kind", "fn") == "const":
         end = t.index(";", s) + 1
@@ -338,6 +340,9 @@ def extract_item(e):
                 sig = sig[:m.start()] + "-> " + e["ret"] + " "
             else:
                 sig = sig.rstrip() + " -> " + e["ret"] + " "
+        if vac and body.lstrip().startswith("{"):
+            k = body.index("{")
+            body = body[:k + 1] + " assert(false); // @VACUITY " + e["key"] + "\n" + body[k + 1:]
         item = sig.rstrip() + "\n" + (e.get("contract", "").rstrip() + "\n" if e.get("contract") else "") + body
         if e.get("attrs"):
             item = e["attrs"] + "\n" + item
@@ -395,14 +400,14 @@ def _referenced_consts(item, src_file, known_text):
     return out
 
 
-def build_unit(u, outdir):
+def build_unit(u, outdir, vac=False):
     tpl = open(VERIF + "/contracts/verus/" + u["template"]).read()
     consts = []
     for e in u.get("extract", []):
         marker = "//@EXTRACT " + e["key"]
         if tpl.count(marker) != 1:
             raise ExtractError(f"template {u['template']}: marker {marker} not found exactly once")
-        item = extract_item(e)
+        item = extract_item(e, vac)
         if e.get("kind", "fn") in ("fn", "block") and e.get("file"):
             for c in _referenced_consts(item, e["file"], tpl):
                 if c not in consts:
@@ -412,9 +417,48 @@ def build_unit(u, outdir):
         # constants referenced by the extracted code and not defined by the unit: placed at the crate root of the unit
         k = tpl.index("verus! {") + len("verus! {")
         tpl = tpl[:k] + "\n// ---- constants of the source file referenced by the extracted code\n" + "\n".join("pub " + c if not c.startswith("pub ") else c for c in consts) + "\n" + tpl[k:]
-    path = outdir + "/" + u["id"] + ".rs"
+    path = outdir + "/" + u["id"] + ("_vacuity" if vac else "") + ".rs"
     open(path, "w").write(tpl)
     return path
+
+
+def vacuity_pass(u, outdir):
+    """Reachability guard behind every precondition: a copy of the unit in which every extracted function / fragment
+    starts with `assert(false)`. Verus must REJECT each of these assertions; one that is accepted means the function's
+    `requires` (or, for a fragment, the wrapper's) is unsatisfiable and everything proved about it is vacuous.
+    -> list of extraction keys whose entry assertion was not rejected (empty = fine), or None if the pass could not run"""
+    try:
+        path = build_unit(u, outdir, vac=True)
+    except ExtractError:
+        return None
+    txt = open(path).read().splitlines()
+    want = {}
+    for i, l in enumerate(txt, 1):
+        m = re.search(r"assert\(false\); // @VACUITY (\S+)", l)
+        if m:
+            want[i] = m.group(1)
+    if not want:
+        return []
+    try:
+        p = subprocess.run(["verus", path, "--multiple-errors", "200"], capture_output=True, text=True, timeout=600)
+    except Exception:
+        return None
+    err = p.stderr or ""
+    if "assertion failed" not in err and "verification results" not in (p.stdout or "") + err:
+        return None
+    hit = set()
+    for blk in re.split(r"\n(?=error)", err):
+        if blk.startswith("error: assertion failed"):
+            m = re.search(r"-->\s*\S+?:(\d+):", blk)
+            if m and int(m.group(1)) in want:
+                hit.add(int(m.group(1)))
+    # after a rejected `assert(false)` Verus assumes it, so later ones in the same function are accepted: only the
+    # first guard of each enclosing function has to be rejected
+    spans = fn_spans(path)
+    first = {}
+    for ln in sorted(want):
+        first.setdefault(enclosing_fn(spans, ln) or str(ln), ln)
+    return sorted(want[ln] for ln in first.values() if ln not in hit)
 
 
 def run_units(us, log=print):
@@ -461,6 +505,13 @@ def run_units(us, log=print):
                 continue
             if vr.get("success") and vr.get("errors", 0) == 0 and vr.get("verified", 0) > 0:
                 row["status"] = "verified"
+                vac = vacuity_pass(u, outdir)
+                if vac is None:
+                    row["vacuity_guard"] = "not run"
+                elif vac:
+                    row.update(status="inconclusive", note="vacuity guard: the entry of " + ", ".join(vac) + " is unreachable under its precondition (contradictory requires)")
+                else:
+                    row["vacuity_guard"] = "every extracted function / fragment is reachable under its precondition (entry `assert(false)` rejected)"
             elif vr.get("verified", 0) + vr.get("errors", 0) == 0:
                 row.update(status="inconclusive", note="zero obligations (vacuous unit)")
             else:
